@@ -20,6 +20,91 @@ pub fn run(ctx: &mut Ctx) {
         concurrent_dials_one_cancelled_on_real_tcp(ctx, true, seed);
     }
     concurrent_dials_one_cancelled_on_real_tcp(ctx, false, 1);
+    known_address_naming_two_peers_on_real_tcp(ctx);
+}
+
+/// A known address for peer B that leads to (and names) another live node A before naming B
+/// (`/ip4/../tcp/../p2p/A/p2p/B`), then `dial(B)` on real TCP nodes: the attempt must end in one outcome for B — refused
+/// at once, or one failure — never a panic, never silence, and no connection reported for B.
+fn known_address_naming_two_peers_on_real_tcp(ctx: &mut Ctx) {
+    let result = std::thread::spawn(move || -> Result<String, (String, String)> {
+        let rt = crate::env::driver::runtime_io(3);
+        let r = catch_unwind(AssertUnwindSafe(|| {
+            rt.block_on(async {
+                let (_park_tx, park_rx) = std::sync::mpsc::channel::<()>();
+                let _parked = tokio::task::spawn_blocking(move || {
+                    let _ = park_rx.recv();
+                });
+                let mut w = World::new();
+                let mut handles = Vec::new();
+                let mut mk = || {
+                    let (m, h) = crate::env::node::Monitor::new("/verif/x/1");
+                    handles.push(h);
+                    ConfigBuilder::new().with_user_protocol(m).with_keep_alive_timeout(Duration::from_secs(100_000))
+                };
+                let l = w.add_tcp_node(61, mk()).expect("tcp node");
+                let a = w.add_tcp_node(62, mk()).expect("tcp node");
+                async fn settle(w: &mut World) {
+                    loop {
+                        w.run_to_quiescence(1_000_000);
+                        if !crate::mc::e2::settle_io(w).await {
+                            break;
+                        }
+                    }
+                }
+                settle(&mut w).await;
+                let peer_b = util::peer(6363);
+                // A's listen address already ends in /p2p/A; append /p2p/B
+                let address = w.nodes[a].address.clone().with(multiaddr::Protocol::P2p(peer_b.into()));
+                let _ = w.nodes[l].cmd.send(NodeCmd::AddKnown(peer_b, address.clone()));
+                settle(&mut w).await;
+                let _ = w.nodes[l].cmd.send(NodeCmd::Dial(peer_b));
+                for _ in 0..3 {
+                    settle(&mut w).await;
+                    tokio::time::advance(Duration::from_secs(10)).await;
+                }
+                settle(&mut w).await;
+                let log: Vec<String> = w.nodes[l]
+                    .log
+                    .lock()
+                    .iter()
+                    .map(|e| match e {
+                        NodeLog::Event(s) => s.chars().take(120).collect(),
+                        NodeLog::DialResult(_, r) => format!("dial(B) -> {r:?}"),
+                    })
+                    .collect();
+                let desc = format!("known address {address}; node log {log:?}");
+                let refused = log.iter().any(|s| s.starts_with("dial(B) -> Err"));
+                let failures = log.iter().filter(|s| s.starts_with("DialFailure") || s.starts_with("OpenFailure")).count();
+                let established_b = log.iter().any(|s| s.starts_with("ConnectionEstablished") && s.contains(&peer_b.to_string()));
+                if established_b {
+                    return Err(("c05/tcp/connection-reported-for-a-peer-that-proved-nothing".to_string(), desc));
+                }
+                if !(refused && failures == 0) && !(!refused && failures == 1) {
+                    return Err(("c05/tcp/no-single-outcome/address-naming-two-peers".to_string(), format!("expected the dial to be refused at once or to fail exactly once; {desc}")));
+                }
+                Ok(desc)
+            })
+        }));
+        match r {
+            Ok(x) => x,
+            Err(_) => {
+                let msg = take_panic();
+                Err((format!("panic/{}", panic_site(&msg)), format!("panic while dialing a peer known under an address that names two peers: {msg}")))
+            }
+        }
+    })
+    .join();
+    let replay = json!({"kind": "known-address-naming-two-peers-on-real-tcp"});
+    match result {
+        Ok(Ok(_)) => {
+            ctx.cov_add("traces_validated_against_impl", 1);
+            ctx.cov_add("tcp_adversarial_address_scenarios", 1);
+        }
+        Ok(Err((sig, what))) if sig.starts_with("machinery/") => ctx.machinery_error(format!("{sig}: {what}")),
+        Ok(Err((sig, what))) => ctx.violation(Violation { signature: sig, what, replay }),
+        Err(_) => ctx.machinery_error("adversarial-address TCP scenario: harness thread panicked outside the guarded region"),
+    }
 }
 
 /// Two dials by peer id in flight on a real `TcpTransport` (the dialed sockets take the TCP connection but never answer
